@@ -33,13 +33,29 @@ def signature(ev):
         return "altered:%s:%s" % (m.get("t", "-"), "+".join(bad))
     if name == "Pub":
         return "delivery:%s:%s" % (m.get("t"), "empty" if m.get("n") == 0 else "short" if m.get("n", 9) <= 5 else "long")
+    if name == "Stage":
+        return "delivery:staged:%s" % (ev.get("s", {}).get("m", {}).get("t"))
     return str(name)
 
 
-def cover(g, rng, max_len):
+QUICK_STAGED_SAMPLE = 6000
+
+
+def step_text(s):
+    if s["name"] == "Pub":
+        return s["m"]["name"] + "@" + s["ts"]
+    if s["name"] == "Stage":
+        x = s["s"]
+        return "Stage(%s%s x%d @%s%s)" % ((x["hdr"]["name"] + " + ") if x["hdr"]["name"] else "", x["m"]["name"], x["k"], x["ts"],
+                                          (", join after %d" % x["j"]) if x["j"] else "")
+    return s["name"]
+
+
+def cover(g, rng, max_len, want=None):
     """Init-rooted paths covering every edge of the history graph.  Unlike Graph.edge_cover a walk that runs
     out of uncovered edges where it stands goes on, through already covered edges, to the nearest history
-    that still has some (most letters leave a history unchanged or lead to a few hubs)."""
+    that still has some (most letters leave a history unchanged or lead to a few hubs).
+    want(u, k): only these edges have to be covered (the others may still be walked through)."""
     from collections import deque
     parent = {}
     dq = deque()
@@ -69,7 +85,7 @@ def cover(g, rng, max_len):
         p.reverse()
         return p
 
-    unc = {u: set(range(len(g.adj[u]))) for u in g.adj if u in parent}
+    unc = {u: set(k for k in range(len(g.adj[u])) if want is None or want(u, k)) for u in g.adj if u in parent}
     left = sum(len(x) for x in unc.values())
     total = left
 
@@ -130,21 +146,67 @@ def run(ctx):
     cfg = "MC_Payloads_q.cfg" if ctx.quick else "MC_Payloads_t.cfg"
     res = E.tlc(ctx, "MC_Payloads", cfg, timeout=1200, deadlock=False)
     E.require_design_ok(ctx, res, cfg)
-    g = E.Graph.load(res)
+    # two graphs: the histories reached by single letters (stg = ""), and the staged part: staging macros from
+    # the initial histories, then every letter (and the late join) from each staged history
+    g, gs = E.Graph(), E.Graph()
+    seen = set()
+    with open(res["out"], errors="replace") as f:
+        for line in f:
+            # one edge per (history, action): TLC prints each once; identical lines are dropped without comparing
+            # an edge with the several hundred others of its history (Graph.add)
+            if not line.startswith('"@E@') or line in seen:
+                continue
+            seen.add(line)
+            e = json.loads(json.loads(line)[3:])
+            x = gs if (e["a"]["name"] == "Stage" or e["f"]["stg"] != "") else g
+            u, v = x.nid(e["f"]), x.nid(e["t"])
+            x.adj[u].append((e["a"], v))
+            x.nedges += 1
+            if e.get("l") == 1:
+                x.inits.add(u)
+    del seen
     paths, ncov = cover(g, ctx.rng, 30)
     if not ctx.quick:
         # two more covers with other random choices: every edge again, behind different predecessors
         for _ in range(2):
             paths += cover(g, ctx.rng, 30)[0]
-    ctx.log("%s: %d histories, %d (history, letter x timestamp class | join) edges, %d covering paths" %
-            (cfg, res["distinct"], g.nedges, len(paths)))
+    if ctx.quick:
+        ctx.rng.shuffle(paths)
+        paths = paths[:4000]
+    nbase = len(paths)
+    # staged part.  thorough: every edge.  quick: from every staged history the letters that stand for a kind
+    # (those the model combines with every timestamp class, and those the macros are made of) at +40 ms, the late
+    # join, and a seed-chosen part of the rest
+    if ctx.quick:
+        core = set()
+        for u in gs.adj:
+            for (a, v) in gs.adj[u]:
+                if a["name"] == "Stage":
+                    core.add(a["s"]["m"]["name"])
+                    core.add(a["s"]["hdr"]["name"])
+                elif a["name"] == "Pub" and a["m"]["tsx"]:
+                    core.add(a["m"]["name"])
+        chosen = set()
+        rest = []
+        for u in sorted(gs.adj):
+            for k, (a, v) in enumerate(gs.adj[u]):
+                if a["name"] != "Pub" or (a["m"]["name"] in core and a["ts"] == "p40"):
+                    chosen.add((u, k))
+                else:
+                    rest.append((u, k))
+        ctx.rng.shuffle(rest)
+        chosen.update(rest[:QUICK_STAGED_SAMPLE])
+        spaths, nstaged = cover(gs, ctx.rng, 30, want=lambda u, k: (u, k) in chosen)
+    else:
+        spaths, nstaged = cover(gs, ctx.rng, 30)
+    paths += spaths
+    ctx.log("%s: %d histories; %d (history, letter x timestamp class | join) edges between histories reached by single "
+            "letters, %d covering paths; %d staging macros / (staged history, letter | join) edges, %d of them on %d paths" %
+            (cfg, res["distinct"], g.nedges, nbase, gs.nedges, nstaged, len(spaths)))
     def cfg_of(path):
         c = path[0]["cfg"]          # every action carries the configuration of its history
         return (c["dummy"], c["predict"])
 
-    if ctx.quick:
-        ctx.rng.shuffle(paths)
-        paths = paths[:4000]
     scen = []
     rr = {}
     for p in paths:
@@ -152,7 +214,7 @@ def run(ctx):
         cands = DRV[mc]
         k = rr.get(mc, 0)
         rr[mc] = k + 1
-        steps = [dict(name=a["name"], m=a.get("m"), ts=a.get("ts", "")) for a in p]
+        steps = [dict(name=a["name"], m=a.get("m"), ts=a.get("ts", ""), s=a.get("s")) for a in p]
         scen.append({"sc": len(scen), "cfg": cands[k % len(cands)], "steps": steps})
     nsteps = sum(len(s["steps"]) for s in scen)
     sp, tp = ctx.path("scen.ndjson"), ctx.path("trace.ndjson")
@@ -162,20 +224,41 @@ def run(ctx):
     ctx.cov["traces_validated_against_impl"] = len(scen)
     ctx.cov["evaluations"] = nsteps
     ctx.cov["distinct_nontrivial"] = len(scen)
-    ctx.cov["edges_total"] = g.nedges
-    ctx.cov["edges_covered_by_paths"] = ncov if not ctx.quick else None
-    ctx.cov["rule"] = ("scenario = init-rooted path of the Payloads history graph (thorough: three covers of every (history, letter x "
-                       "timestamp class) edge; quick: a seed-chosen 4000 of those paths), published through "
+    ctx.cov["edges_total"] = g.nedges + gs.nedges
+    ctx.cov["edges_covered_by_paths"] = (ncov if not ctx.quick else None)
+    ctx.cov["staged_edges_total"] = gs.nedges
+    ctx.cov["staged_edges_replayed"] = nstaged
+    ctx.cov["staged_histories"] = sum(1 for k in gs.ids if '"stg":"s"' in k)
+    ctx.cov["rule"] = ("scenario = init-rooted path of the Payloads history graph: (a) histories reached by single letters "
+                       "(thorough: three covers of every (history, letter x timestamp class) edge; quick: a seed-chosen 4000 of "
+                       "those paths); (b) staged histories = a staging macro (optional sequence header, 14/15/16 copies of a "
+                       "letter that identifies nothing / audio only / video only, consumers joining in the middle) from the "
+                       "initial history, then the late join and every letter (thorough: every edge once; quick: from every staged "
+                       "history the letters that stand for a kind, plus a seed-chosen %d of the other edges); published through "
                        "Group.OnReadRtmpAvMsg of a real ServerManager with every output enabled, in child processes, one "
-                       "watchdog per call and a probe of a second stream after every step; each is distinct")
+                       "watchdog per call and a probe of a second stream after every step; each is distinct" % QUICK_STAGED_SAMPLE)
     if scen:
         ctx.sample({"sc": scen[0]["sc"], "cfg": scen[0]["cfg"]["id"],
-                    "steps": [(s["m"]["name"] + "@" + s["ts"]) if s["name"] == "Pub" else "Join" for s in scen[0]["steps"]]})
+                    "steps": [step_text(s) for s in scen[0]["steps"]]})
+    for sc in scen:
+        if sc["steps"][0]["name"] == "Stage":
+            ctx.sample({"sc": sc["sc"], "cfg": sc["cfg"]["id"], "steps": [step_text(s) for s in sc["steps"]]})
+            break
     ends = [r.get("info", {}) for r in rows if r.get("ev") == "End"]
     ctx.cov["scenarios_with_rtsp_consumer_playing"] = sum(1 for i in ends if i.get("rtspPlaying", 0) > 0)
     ctx.cov["scenarios_with_rtp_delivered"] = sum(1 for i in ends if i.get("rtspBytes", 0) > 0)
     ctx.cov["scenarios_with_ts_delivered"] = sum(1 for i in ends if i.get("tsBytes", 0) > 0)
     rej = E.validate(ctx, "Trace_Payloads", "Trace_Payloads.cfg", rows)
+    # not a verdict: steps of staged scenarios (configuration A) where lal's count-bounded stages (DESCRIBE answered,
+    # PAT/PMT recorded) are not where the model has them
+    import glob, os
+    nmis = 0
+    for f in glob.glob(os.path.join(ctx.work, "tlc-val-Trace_Payloads-s*", "out.txt")):
+        with open(f, errors="replace") as fh:
+            nmis += sum(1 for line in fh if "@MIS@" in line)
+    ctx.cov["staged_steps_where_stage_state_differs_from_model"] = nmis
+    if nmis:
+        ctx.log("note: %d staged steps where lal's stage state (DESCRIBE answered / PAT+PMT recorded) differs from the model's" % nmis)
     # one report per signature: prefer a case that was re-run alone and reproduced
     rej.sort(key=lambda r: 0 if r["event"].get("obs", {}).get("confirmed") else 1)
     for r in rej:
@@ -184,6 +267,8 @@ def run(ctx):
         sig = signature(ev)
         m = ev.get("m") or {}
         what = "%s%s" % (ev.get("ev"), (" " + m.get("name", "") + "@" + ev.get("ts", "")) if m else "")
+        if ev.get("ev") == "Stage":
+            what = step_text(dict(name="Stage", s=ev["s"]))
         text = "scenario %s step %d (%s, cfg %s): %s" % (
             r["sc"], r["line"], what, r["trace"][0].get("cfg", {}).get("id"),
             json.dumps({k: o.get(k) for k in ("died", "stalled", "other", "hookN", "crash", "frame", "confirmed")}))
@@ -193,4 +278,8 @@ def run(ctx):
         E.report(ctx, sig, text, {"scenario": sc, "trace": r["trace"]})
     ctx.assumptions += ["payload bytes per letter are built by harness/drv/payloads.go and checked against the letter attributes the model uses",
                         "log.assert_behavior at the shipped default (1); log level error except configurations B and C4 (shipped debug level, to /dev/null)",
-                        "per-call budget 400 ms + 1 us/byte on a loaded machine; an expiry counts only if it reproduces on two re-runs alone"]
+                        "per-call budget 400 ms + 1 us/byte on a loaded machine; an expiry counts only if it reproduces on two re-runs alone",
+                        "stage state of staged histories (TS probe, RTSP analysis: messages held, tracks identified, over by count / by "
+                        "identification) is exact in configuration A and compared there with lal (DESCRIBE of the parked subscriber answered, "
+                        "PAT/PMT in the TS recording; a difference is counted, not judged); under dummy audio it describes the "
+                        "publisher's messages, which the filter holds back, re-times and pads before the remuxers see them"]
